@@ -33,6 +33,8 @@ def gen_case(st, tier, env):
     n_max = 5 if env == "present" else 6
     if fam < 0.08:
         n_max = 7 if env != "present" else 6
+    if tier == "thorough" and env != "present" and k.random() < 0.04:
+        n_max = 9  # value-only oracle (subset DP); the free solver handles 108 binaries
     if fam < 0.35:
         ds = gen.gen_sparse_dataset(w, n_max=n_max)
     elif fam < 0.45:
